@@ -196,6 +196,7 @@ private:
 
                 if( isdigit( ch ))
                 {
+                    io_error_if( k + 1 >= sizeof( buf ), "Number in ASCII PNM data is too long." );
                     buf[ k++ ] = static_cast< char >( ch );
                 }
                 else if( k )
